@@ -47,7 +47,7 @@ TargetCompile(b) ==
   /\ UNCHANGED <<stage, gen, memo>>
 
 Output(key, digest) ==
-  /\ key \notin DOMAIN memo \/ memo[key] = digest
+  /\ (IF key \in DOMAIN memo THEN memo[key] = digest ELSE TRUE)
   /\ memo' = (key :> digest) @@ memo
   /\ UNCHANGED <<stage, gen, compiled>>
 
